@@ -62,6 +62,18 @@ fn set_bank(b: &mut Bank, k: &str, v: &Value) {
         "config.oracle_max_confidence" => b.config.oracle_max_confidence = i128v(v) as u32,
         "config.operational_state" => b.config.operational_state = unsafe { std::mem::transmute::<u8, _>(i128v(v) as u8) },
         "config.risk_tier" => b.config.risk_tier = unsafe { std::mem::transmute::<u8, _>(i128v(v) as u8) },
+        "irc.optimal_utilization_rate" => b.config.interest_rate_config.optimal_utilization_rate = wi(v),
+        "irc.plateau_interest_rate" => b.config.interest_rate_config.plateau_interest_rate = wi(v),
+        "irc.max_interest_rate" => b.config.interest_rate_config.max_interest_rate = wi(v),
+        "irc.insurance_fee_fixed_apr" => b.config.interest_rate_config.insurance_fee_fixed_apr = wi(v),
+        "irc.insurance_ir_fee" => b.config.interest_rate_config.insurance_ir_fee = wi(v),
+        "irc.protocol_fixed_fee_apr" => b.config.interest_rate_config.protocol_fixed_fee_apr = wi(v),
+        "irc.protocol_ir_fee" => b.config.interest_rate_config.protocol_ir_fee = wi(v),
+        "irc.zero_util_rate" => b.config.interest_rate_config.zero_util_rate = i128v(v) as u32,
+        "irc.hundred_util_rate" => b.config.interest_rate_config.hundred_util_rate = i128v(v) as u32,
+        "irc.curve_type" => b.config.interest_rate_config.curve_type = i128v(v) as u8,
+        "irc.points" => { for (i, p) in v.as_array().unwrap().iter().enumerate() { let a = p.as_array().unwrap();
+            b.config.interest_rate_config.points[i] = marginfi_type_crate::types::RatePoint::new(i128v(&a[0]) as u32, i128v(&a[1]) as u32); } },
         _ => panic!("unknown bank field {k}"),
     }
 }
@@ -157,6 +169,34 @@ fn handle(req: &Value) -> Value {
             match r {
                 Ok(k) => json!({"ok": true, "ret": k, "bank": dump_bank(&bank)}),
                 Err(e) => json!({"ok": false, "err": errcode(&e), "bank": dump_bank(&bank)}),
+            }
+        }
+        "accrue" => {
+            let mut bank = mk_bank(req.get("bank"));
+            let group = marginfi_type_crate::types::MarginfiGroup::zeroed();
+            let r = bank.accrue_interest(i128v(&req["now"]) as i64, &group, Pubkey::default());
+            match r {
+                Ok(_) => json!({"ok": true, "bank": dump_bank(&bank)}),
+                Err(e) => json!({"ok": false, "err": errcode(&e), "bank": dump_bank(&bank)}),
+            }
+        }
+        "deposit_up_to_limit_seq" => {
+            // the deposit handler's order of operations on the bank: capacity, then accrual, then deposit(min(amount, capacity))
+            // ("accrue_first": true gives the order required by the property)
+            let mut bank = mk_bank(req.get("bank"));
+            let mut balance = mk_balance(req.get("balance"));
+            let group = marginfi_type_crate::types::MarginfiGroup::zeroed();
+            let now = i128v(&req["now"]) as i64;
+            let amount = i128v(&req["amount"]) as u64;
+            let accrue_first = req.get("accrue_first").and_then(|v| v.as_bool()).unwrap_or(false);
+            if accrue_first { if let Err(e) = bank.accrue_interest(now, &group, Pubkey::default()) { return json!({"ok": false, "stage": "accrue", "err": errcode(&e)}); } }
+            let cap = match bank.get_remaining_deposit_capacity() { Ok(c) => c, Err(e) => return json!({"ok": false, "stage": "capacity", "err": errcode(&e)}) };
+            let dep = amount.min(cap);
+            if !accrue_first { if let Err(e) = bank.accrue_interest(now, &group, Pubkey::default()) { return json!({"ok": false, "stage": "accrue", "err": errcode(&e)}); } }
+            let r = { let mut w = BankAccountWrapper { balance: &mut balance, bank: &mut bank }; w.deposit(I80F48::from_num(dep)) };
+            match r {
+                Ok(_) => json!({"ok": true, "capacity": cap.to_string(), "deposited": dep.to_string(), "bank": dump_bank(&bank)}),
+                Err(e) => json!({"ok": false, "stage": "deposit", "err": errcode(&e), "capacity": cap.to_string(), "deposited": dep.to_string(), "bank": dump_bank(&bank)}),
             }
         }
         "remaining_deposit_capacity" => {
